@@ -33,7 +33,7 @@ func c31Build(N, nmsgs, maxEnd int) ([]*blockCommitMsg, []c31Claim, bool) {
 			e := nondetU32("endorser")
 			assume(e >= 1 && e <= uint32(N))
 			valid := nondetBool("sigvalid")
-			m.EndorsersSig[e] = []byte{1}
+			m.EndorsersSig[e] = []byte{nondetU8("sigbyte")}
 			claims = append(claims, c31Claim{e, proposer, valid})
 			anyForged = or(anyForged, !valid)
 		}
@@ -58,8 +58,51 @@ func c31Verifiable(claims []c31Claim, p uint32) int {
 	return count + iteInt(proposerCounted, 0, 1)
 }
 
+func c31IsEndorser(self *Server, blockNum uint32, peerIdx uint32) bool { return true }
+
+// Harness_C31_pool: the same claim one level up: commit messages enter the real BlockPool.newBlockCommitment
+// (with its per-endorser duplicate filtering) and commitDone decides, including its signature-count fallback.
+func Harness_C31_pool() {
+	N := param("Nmin") + nondetRange("N", param("Nmax")-param("Nmin")+1)
+	C := (N - 1) / 3
+	msgs, claims, _ := c31Build(N, 1+nondetRange("nmsgs", param("maxmsgs")), param("maxendorsers"))
+	pool := &BlockPool{candidateBlocks: map[uint32]*CandidateInfo{}, server: &Server{}}
+	// endorsement messages received directly from endorsers
+	ne := nondetRange("nendorsemsgs", param("maxendorsemsgs")+1)
+	for i := 0; i < ne; i++ {
+		e := nondetU32("endorsemsg.endorser")
+		assume(e >= 1 && e <= uint32(N))
+		pr := nondetU32("endorsemsg.proposer")
+		assume(pr >= 1 && pr <= 2)
+		pool.newBlockEndorsement(&blockEndorseMsg{Endorser: e, EndorsedProposer: pr, BlockNum: 7,
+			EndorseForEmpty: nondetBool("endorsemsg.forEmpty"), EndorserSig: []byte{nondetU8("endorsemsg.sig")}})
+		claims = append(claims, c31Claim{e, pr, true})
+	}
+	for _, m := range msgs {
+		m.BlockNum = 7
+		m.CommitterSig = []byte{nondetU8("csig")}
+		err := pool.newBlockCommitment(m)
+		assert(err == nil, "pool-accepts-first-commit-of-a-committer")
+	}
+	p, _, done := pool.commitDone(7, uint32(C), uint32(N))
+	cover("pool-returned")
+	if !done {
+		return
+	}
+	cover("pool-consensus-reported")
+	selfCount := false
+	for i := range claims {
+		claims[i].valid = true // distinctness only: forged carried signatures are the listed finding of the other harness
+		selfCount = or(selfCount, and(claims[i].proposer == p, claims[i].idx == p))
+	}
+	kf2 := knownFinding("C31-proposer-counted-twice", selfCount)
+	_ = kf2
+	need := N - (N-1)/3
+	assert(c31Verifiable(claims, p) >= need, "pool-commit-has-quorum-of-distinct-signers")
+}
+
 func Harness_C31_commit_consensus() {
-	N := param("N")
+	N := param("Nmin") + nondetRange("N", param("Nmax")-param("Nmin")+1)
 	C := (N - 1) / 3
 	msgs, claims, anyForged := c31Build(N, 1+nondetRange("nmsgs", param("maxmsgs")), param("maxendorsers"))
 	p, _ := getCommitConsensus(msgs, C, N)
